@@ -72,4 +72,14 @@ def main():
 
 
 if __name__ == "__main__":
-    sys.exit(main())
+    try:
+        rc = main()
+    except SystemExit:
+        raise
+    except BaseException:  # noqa: BLE001 - an uncaught harness failure must not look like a verdict
+        import traceback
+
+        traceback.print_exc()
+        print("HARNESS-ERROR uncaught exception in the harness")
+        rc = 2
+    sys.exit(rc)
